@@ -23,7 +23,7 @@ int main (int argc, char **argv) {
 	if (argc < 3) return 2;
 	in = fopen (argv[1], "r"); if (!in) return 2;
 	vt_open (argv[2]);
-	p_libsys_init ();
+	p_libsys_init (); p_libsys_shutdown (); p_libsys_init ();      /* the library is used after a shutdown / re-initialisation cycle */
 	while (fgets (line, sizeof line, in)) {
 		a1[0] = a2[0] = 0;
 		if (sscanf (line, "%31s %4199s %4199s", op, a1, a2) < 1) continue;
